@@ -44,3 +44,14 @@ def run(ck, prog):
         else:
             ck.ok(rule, inst, b.path, f"{b.loc[0]}:{b.loc[1]}", f"{len(uses)} uses of input-derived data, all row-wise: {sorted({u[1] for u in uses})}; model fields {sorted(deps)}")
     ck.floor(rule, 2)
+
+
+_run_pre_builders = run
+
+
+def run(ck, prog):
+    _run_pre_builders(ck, prog)
+    # every setting of the quantifier is reachable through the public builder chain: setters must not clobber other fields
+    from sa.builders import check_builders
+    check_builders(ck, prog, r"^decomposition::(pca::PCA|svd::SVD)Parameters$")
+    ck.floor("E2-builder", 3)
